@@ -252,6 +252,9 @@ contract(
             # no fragment-less node seen so far takes part in a bond of order >= 1 (otherwise SyntaxError was raised)
             "all(implies(not " + _HASFRAG + " and node_index(" + _MG + ", k) < _i0, "
             "all(implies(has_edge(" + _MG + ", k, m), eattr(" + _MG + ", k, m, 'order') == 0) for m in nodes(" + _MG + "))) for k in nodes(" + _MG + "))",
+        ], lemmas=[
+            "implies(not (has_attr(" + _MG + ", meta_node, 'fragname') and attr(" + _MG + ", meta_node, 'fragname') in fragment_dict), "
+            "all(implies(has_edge(" + _MG + ", meta_node, m), eattr(" + _MG + ", meta_node, m, 'order') == 0) for m in nodes(" + _MG + ")))",
         ]),
         1: Loop(over='fragment.nodes', modifies=["self.molecule:attr:fragid,attr:mapping", "graph_frag"], invariant=[
             "fresh_graph(graph_frag) and graph_frag != self.molecule",
